@@ -92,6 +92,38 @@ Proof.
   intros H Hne. apply next_tokens_facts in H. destruct H as [(E & _)|(E & _)]; [congruence|exact E].
 Qed.
 
+(* any consume_input: the leaves are a tokenisation of a prefix of the input *)
+Theorem glr_full_tok_sound_any (c : pconf) (inp : pinput) (fuel : nat) (pos start : N) nodes root :
+  table_struct (pc_g c) (pc_tb c) start = true ->
+  glr_tok_checks0 c inp = true ->
+  glr_parse_full c inp fuel pos = GLRForest nodes root ->
+  forall t, unfolds (glr_forest nodes root) (pred (length (glr_forest nodes root))) t ->
+    wf_tree (pc_g c) t /\ root_sym (pc_g c) t = Some (NT start) /\
+    chain_ok (skip_ws (pc_ws c) inp) (leaves t) /\ All (leaf_ok (tokok_of inp)) (leaves t) /\
+    match bounds (leaves t) with
+    | None => pc_consume c = true -> skip_ws (pc_ws c) inp pos = in_len inp
+    | Some (fs, le) =>
+        fs = skip_ws (pc_ws c) inp pos /\
+        (pc_consume c = true -> (le <= in_len inp)%N /\ skip_ws (pc_ws c) inp le = in_len inp)
+    end.
+Proof.
+  intros Hts Hc H t Ht. unfold glr_tok_checks0 in Hc.
+  apply andb_true_iff in Hc. destruct Hc as [Hc C6]. apply andb_true_iff in Hc. destruct Hc as [Hc C5].
+  apply andb_true_iff in Hc. destruct Hc as [Hc C4]. apply andb_true_iff in Hc. destruct Hc as [C2 C3].
+  destruct (glr_full_sound c inp fuel pos start nodes root Hts H t Ht) as [Hwf Hrs].
+  split; [exact Hwf|]. split; [exact Hrs|].
+  unfold glr_parse_full in H.
+  assert (Hsk : forall p q, glr_skipws c inp fuel p = SkOk q -> q = skip_ws (pc_ws c) inp p).
+  { intros p q E. unfold glr_skipws in E. destruct (pc_layout c); [discriminate|]. inversion E. reflexivity. }
+  refine (glr_tok_sound (pc_g c) (pc_tb c) start Hts (pc_terms c) (rx_of inp) (in_len inp) (pc_stop c)
+            (pc_consume c) (pc_lexdis c) (glr_skipws c inp fuel) revisit_order (skip_ws (pc_ws c) inp)
+            Hsk (skip_ws_ge _ _) (stop_row_zero_none _ _ C3) (no_stop_shift_ok _ _ C4)
+            (accept_only_stop_ok _ _ C5) _ fuel pos nodes root H t Ht).
+  intros s s' p y l y' l' H1 H2 N1 N2.
+  apply (rx_uniform_ok inp C6 y y' p); eapply tokens_at_rx; eassumption.
+Qed.
+
+(* consume_input on: of the whole input *)
 Theorem glr_full_tok_sound (c : pconf) (inp : pinput) (fuel : nat) (pos start : N) nodes root :
   table_struct (pc_g c) (pc_tb c) start = true ->
   glr_tok_checks c inp = true ->
@@ -105,19 +137,9 @@ Theorem glr_full_tok_sound (c : pconf) (inp : pinput) (fuel : nat) (pos start : 
                        skip_ws (pc_ws c) inp le = in_len inp
     end.
 Proof.
-  intros Hts Hc H t Ht. unfold glr_tok_checks in Hc.
-  apply andb_true_iff in Hc. destruct Hc as [Hc C6]. apply andb_true_iff in Hc. destruct Hc as [Hc C5].
-  apply andb_true_iff in Hc. destruct Hc as [Hc C4]. apply andb_true_iff in Hc. destruct Hc as [Hc C3].
-  apply andb_true_iff in Hc. destruct Hc as [C1 C2].
-  destruct (glr_full_sound c inp fuel pos start nodes root Hts H t Ht) as [Hwf Hrs].
-  split; [exact Hwf|]. split; [exact Hrs|].
-  unfold glr_parse_full in H. rewrite C1 in H.
-  assert (Hsk : forall p q, glr_skipws c inp fuel p = SkOk q -> q = skip_ws (pc_ws c) inp p).
-  { intros p q E. unfold glr_skipws in E. destruct (pc_layout c); [discriminate|]. inversion E. reflexivity. }
-  refine (glr_tok_sound (pc_g c) (pc_tb c) start Hts (pc_terms c) (rx_of inp) (in_len inp) (pc_stop c)
-            (pc_lexdis c) (glr_skipws c inp fuel) revisit_order (skip_ws (pc_ws c) inp)
-            Hsk (skip_ws_ge _ _) (stop_row_zero_none _ _ C3) (no_stop_shift_ok _ _ C4)
-            (accept_only_stop_ok _ _ C5) _ fuel pos nodes root H t Ht).
-  intros s s' p y l y' l' H1 H2 N1 N2.
-  apply (rx_uniform_ok inp C6 y y' p); eapply tokens_at_rx; eassumption.
+  intros Hts Hc H t Ht. unfold glr_tok_checks in Hc. apply andb_true_iff in Hc. destruct Hc as [C1 C0].
+  destruct (glr_full_tok_sound_any c inp fuel pos start nodes root Hts C0 H t Ht) as (A1 & A2 & A3 & A4 & A5).
+  split; [exact A1|]. split; [exact A2|]. split; [exact A3|]. split; [exact A4|].
+  destruct (bounds (leaves t)) as [[fs le]|]; [|exact (A5 C1)].
+  destruct A5 as [B1 B2]. destruct (B2 C1) as [B3 B4]. auto.
 Qed.
